@@ -90,3 +90,24 @@ func init() {
 		Assumptions: []string{"operands of s1.Interval lie in [-Pi, Pi] (the type's documented domain)", "the point-set specification written in orderspec.go (closed intervals; -Pi identified with Pi; empty = (Pi,-Pi))"},
 	}
 }
+
+func init() {
+	Properties["C09"] = PropertySpec{
+		Rules: []string{"R-WIRE", "R-DETERMINISTIC", "R-STICKY", "R-SELFCMP"},
+		Explanation: "Lossless encoding, reduced to the clauses visible in code shape: the writer's and the reader's sequences of primitive fields agree for every codec pair (including loop nesting, optional bound, " +
+			"format alternatives and the first-point/other-point alternation), encoding is free of nondeterminism sources, and coder errors reach the caller.",
+		NotCovered: "bit-exact reproduction of coordinates (float arithmetic of the cell-centre conversions), the choice between formats, nth-derivative and zig-zag arithmetic, the off-centre list contents.",
+	}
+}
+
+func init() {
+	p := Properties["C09"]
+	p.Rules = append(p.Rules, "R-CONST")
+	Properties["C09"] = p
+	p = Properties["C10"]
+	p.Rules = append(p.Rules, "R-CONST")
+	Properties["C10"] = p
+	p = Properties["C06"]
+	p.Rules = append(p.Rules, "R-CONST")
+	Properties["C06"] = p
+}
